@@ -100,6 +100,13 @@ impl<A: smallvec::Array<Item = u8>> Parse for SmallString<A> {
 										} else if parser.options.accept_truncated_surrogate_pair {
 											result.push('\u{fffd}');
 
+											if (0xd800..=0xdbff).contains(&codepoint) {
+												// another high surrogate: it may still be
+												// followed by its low counterpart.
+												high_surrogate = Some((p, codepoint));
+												continue;
+											}
+
 											match char::from_u32(codepoint) {
 												Some(c) => c,
 												None => {
